@@ -509,6 +509,8 @@ package prover
 //@                         assignment.IdComms, len(assignment.IdComms), assignment.MerkleProofs, lens(assignment.MerkleProofs), len(assignment.MerkleProofs))
 //@   assert@def:proof err == nil ==> proof == gnark.proveOut(ps.ConstraintSystem, ps.ProvingKey, witness)
 //@   assert@return result1 == nil ==> deref(result0).Proof == proof
+//@   snap@def:proof proveErr = err
+//@   assert@return result1 == nil ==> proveErr == nil
 
 //@ func (*ProvingSystem) ProveDeletion
 //@   property C07 C09 C13
@@ -540,6 +542,8 @@ package prover
 //@                         assignment.IdComms, len(assignment.IdComms), assignment.MerkleProofs, lens(assignment.MerkleProofs), len(assignment.MerkleProofs))
 //@   assert@def:proof err == nil ==> proof == gnark.proveOut(ps.ConstraintSystem, ps.ProvingKey, witness)
 //@   assert@return result1 == nil ==> deref(result0).Proof == proof
+//@   snap@def:proof proveErr = err
+//@   assert@return result1 == nil ==> proveErr == nil
 
 //@ func (*ProvingSystem) VerifyInsertion
 //@   property C07
